@@ -85,7 +85,11 @@ func (m *Machine) repInvariants(n *Node) {
 	}
 	if needJN {
 		n.JN = c.Var(n.Name+".jn", smt.SInt)
-		n.JK = c.Var(n.Name+".jk", smt.SInt)
+		if tm.JNIntegersOnly {
+			n.JK = c.Int(0)
+		} else {
+			n.JK = c.Var(n.Name+".jk", smt.SInt)
+		}
 		lim := new(big.Int).Lsh(big.NewInt(1), 70)
 		if tm.IntAbsLimit != nil {
 			lim = tm.IntAbsLimit
@@ -95,8 +99,10 @@ func (m *Machine) repInvariants(n *Node) {
 		if tm.JNIntegersOnly {
 			maxK = 0
 		}
-		m.AddBase(c.InRange(n.JK, big.NewInt(0), big.NewInt(maxK)))
-		m.DeclareRange(n.JK, big.NewInt(0), big.NewInt(maxK))
+		if n.JK.Op != smt.OpConst {
+			m.AddBase(c.InRange(n.JK, big.NewInt(0), big.NewInt(maxK)))
+			m.DeclareRange(n.JK, big.NewInt(0), big.NewInt(maxK))
+		}
 	}
 	if needInt && tm.IntAbsLimit != nil {
 		m.AddBase(c.InRange(n.IVal, new(big.Int).Neg(tm.IntAbsLimit), tm.IntAbsLimit))
